@@ -20,7 +20,7 @@ CONN_ACTIONS = ["AcceptOk", "AcceptFail", "ConnClose", "RecvFrame", "RecvPartial
 DGRAM_ACTIONS = ["DRecv", "DRecvShort", "DRecvReply", "DRecvBig", "DRelease", "DSend", "DReconf",
                  "SpuriousReadable", "SendError"]
 SIZE_DEVS = ["D_no_edns_uses_server_hint", "D_trunc_opt_over_limit"]
-ALL_DEVS = SIZE_DEVS + ["D_queue_full_drop"]
+ALL_DEVS = SIZE_DEVS + ["D_queue_full_drop", "D_accept_not_resumed"]
 
 
 def _gen(ctx, module, cfg, out, label, simulate=None, seed=None):
@@ -118,10 +118,12 @@ def run(ctx):
     mc = ctx.tlc("MC_ServerConn", "MC_ServerConn2" + suf, workers=8, label="mc-conn2",
                  timeout=3000)
     ctx.require_ok(mc, "MC_ServerConn2 (two connections)")
-    # accept path: failed setups, the connection limit, open/close cycles
+    # accept path: failed setups, the connection limit with
+    # accept_connections_at_max true / false, open/close cycles, commands:
+    # below the limit a running server takes connections on (AcceptServes)
     mc = ctx.tlc("MC_ServerConn", "MC_ServerAccept", workers=8, label="mc-accept")
     ctx.require_ok(mc, "MC_ServerAccept")
-    ctx.require_actions(mc, ["AcceptOk", "AcceptFail", "AcceptRefuse", "AcceptError", "ConnClose"])
+    ctx.require_actions(mc, ["AcceptOk", "AcceptFail", "AcceptRefuse", "AcceptError", "ConnClose", "SCmd"])
     # ServiceFeedback::Reconfigure: the idle timer uses the value in force
     mc = ctx.tlc("MC_ServerConn", "MC_ServerReconf", workers=8, label="mc-reconf")
     ctx.require_ok(mc, "MC_ServerReconf")
@@ -145,6 +147,9 @@ def run(ctx):
         elif d == "D_queue_full_drop":
             r = ctx.tlc("MC_ServerConn", "MC_ServerConn_" + d, workers=4, label="dev-" + d,
                         expect_violation="EachResponseOnce", count=False, coverage=False)
+        elif d == "D_accept_not_resumed":
+            r = ctx.tlc("MC_ServerConn", "MC_ServerAccept_" + d, workers=4, label="dev-" + d,
+                        expect_violation="AcceptServes", count=False, coverage=False)
         else:
             continue
         ctx.require_ok(r, "deviation %s breaks the property on the model" % d)
@@ -213,7 +218,9 @@ def run(ctx):
     # ---- 3. S->I: behaviours of the connection / datagram machines ----
     parts = []
     for cfg in ["Gen_ServerConn_directed", "Gen_ServerConn_directed_q2", "Gen_ServerDgram_directed",
-                "Gen_ServerConn_defaults", "Gen_ServerDgram_defaults"]:
+                "Gen_ServerConn_defaults", "Gen_ServerDgram_defaults",
+                # accept_connections_at_max = false, StreamServer::reconfigure
+                "Gen_ServerConn_directed_noaam"]:
         p = os.path.join(ctx.work, cfg + ".ndjson")
         _gen(ctx, "Gen_ServerConn", cfg, p, "gen-" + cfg)
         parts.append(p)
@@ -223,7 +230,10 @@ def run(ctx):
             # service kinds that say what the request / the answer's last
             # builder operations look like (stripped OPT, rolled-back pushes,
             # hostile COOKIE options, ServiceError kinds) on the real servers
-            ("Gen_ServerConn_kinds", 400 if thorough else 100, 4)]
+            ("Gen_ServerConn_kinds", 400 if thorough else 100, 4),
+            # a server that stops accepting at its limit, reconfigured while
+            # running (limit raised / lowered, aam switched)
+            ("Gen_ServerConn_noaam", 400 if thorough else 80, 5)]
     if not thorough:
         # capacity 2 is covered by the directed scenarios in the quick tier
         sims = [x for x in sims if x[0] != "Gen_ServerConn_q2"]
@@ -312,6 +322,9 @@ def run(ctx):
 def explain(ctx, dev):
     if dev in SIZE_DEVS:
         r = ctx.tlc("MC_ServerSize", "MC_ServerSize_" + dev, workers=2, label="explain",
+                    coverage=False)
+    elif dev == "D_accept_not_resumed":
+        r = ctx.tlc("MC_ServerConn", "MC_ServerAccept_" + dev, workers=4, label="explain",
                     coverage=False)
     else:
         r = ctx.tlc("MC_ServerConn", "MC_ServerConn_" + dev, workers=4, label="explain",
